@@ -7,7 +7,8 @@
 //! answer says that all observations equal the mirror's.
 //!
 //! Each case runs on a worker thread under a watchdog: an iterator that never returns makes the answer
-//! `hang` instead of blocking the check (later cases of that process are answered `INVALID skipped-after-hang`).
+//! `hang` instead of blocking the check (later cases of that process are answered `INVALID skipped-after-hang`
+//! and the process exits with code 3).
 #[path = "../../common/mod.rs"]
 mod common;
 use common::*;
@@ -617,7 +618,7 @@ fn gen(args: &Args, emit: &mut dyn FnMut(String), st: &mut Stats) {
         }
     }
     // (F) random histories
-    let nf = if thorough { 150_000 } else { 1_200 };
+    let nf = if thorough { 250_000 } else { 1_200 };
     for i in 0..nf {
         // N=10 lines are long: one in six
         let ni = match i % 6 {
@@ -649,23 +650,31 @@ fn gen(args: &Args, emit: &mut dyn FnMut(String), st: &mut Stats) {
     }
 }
 
+static HUNG: std::sync::atomic::AtomicBool = std::sync::atomic::AtomicBool::new(false);
+
 fn main() {
+    use std::sync::atomic::Ordering;
     let mut worker: Option<Worker> = Some(spawn_worker());
-    let mut hung = false;
     cli(gen, move |line| {
-        if hung {
+        if HUNG.load(Ordering::SeqCst) {
             return "I INVALID skipped-after-hang".to_string();
         }
         let w = worker.as_ref().unwrap();
         w.tx.send(line.to_string()).unwrap();
-        match w.rx.recv_timeout(Duration::from_secs(10)) {
+        // a case takes well under 10 ms; 2 s without an answer means the real code does not return
+        match w.rx.recv_timeout(Duration::from_secs(2)) {
             Ok(r) => r,
             Err(_) => {
-                hung = true;
-                // the stuck thread is abandoned; the process ends normally after the last line
+                HUNG.store(true, Ordering::SeqCst);
+                // the stuck thread is abandoned; the process ends after the last line
                 std::mem::forget(worker.take());
                 "I hang".to_string()
             }
         }
     });
+    if HUNG.load(Ordering::SeqCst) {
+        // make the hang visible to `check` even if the line itself were overlooked
+        eprintln!("a case did not return within 2 s (answered `hang`); later cases of this process were skipped");
+        std::process::exit(3);
+    }
 }
